@@ -103,7 +103,9 @@ def gen_case(rng):
     if spec in ("two", "mixed") and not any(c[0] == "k2" for c in rcols):
         on = on[:1]
     wrap = {"left": rng.random() < 0.25, "right": rng.random() < 0.25, "left_order": rng.random() < 0.2,
-            "right_order": rng.random() < 0.1}
+            "right_order": rng.random() < 0.1,
+            # the step after the join needs columns of one side only (row multiplicity must still be the join's)
+            "after": rng.choice([None, None, None, "select-a", "count-a", "select-b", "count-b"])}
     return {"L": L, "R": R_, "on": on, "jointype": jt, "spec": spec, "also": also, "wrap": wrap}
 
 
@@ -125,7 +127,28 @@ def build(case):
         on_arg = [a for a, b in on]
     else:
         on_arg = [(a, b) for a, b in on]
-    return l.natural_join(r, on=on_arg, jointype=case["jointype"])
+    j = l.natural_join(r, on=on_arg, jointype=case["jointype"])
+    after = case["wrap"].get("after")
+    if after and after[-1] in j.column_names:
+        c = after[-1]
+        j = j.select_columns([c]) if after.startswith("select") else j.project({"n_rows": "(1).sum()"}, group_by=[c])
+    return j
+
+
+def after_reference(case, want):
+    """the reference join result taken through the same narrowing step"""
+    after = case["wrap"].get("after")
+    if not after or after[-1] not in want.columns:
+        return want
+    c = after[-1]
+    if after.startswith("select"):
+        return want[[c]].reset_index(drop=True)
+    if want.shape[0] == 0:
+        import pandas
+
+        return pandas.DataFrame({c: [], "n_rows": []})
+    g = want.groupby([c], dropna=False).size().reset_index(name="n_rows")
+    return g
 
 
 def features(case):
@@ -202,6 +225,9 @@ def judge(b, case, sq, pg, nat):
         return None
     b.count("references_agree")
     ops = build(case)
+    want = after_reference(case, want)
+    if case["wrap"].get("after"):
+        b.count("narrowing_step_after_join", case["wrap"]["after"])
     ok = set()
     cj = json.loads(json.dumps(case))
     for be in ("pandas", "polars", "polars-lazy", "sqlite", "pg-surrogate"):
@@ -238,7 +264,7 @@ def judge(b, case, sq, pg, nat):
                                           red["R"]["rows"], red["on"], red["jointype"])
                 try:
                     rgot = sq.run(build(red), {"L": core.table_frame(red["L"]), "R": core.table_frame(red["R"])})
-                    if frames_match(rows_frame(rcols_, rrows_), rgot):
+                    if frames_match(after_reference(red, rows_frame(rcols_, rrows_)), rgot):
                         fk = None
                 except Exception:
                     fk = None
